@@ -20,12 +20,12 @@ Definition ex_nodes (m : nat) : Qc := Q2Qc (Z.of_nat m # 2).
 Definition ex_level (M pre post : nat) : @level Qc unit :=
   {| lM := M; ldt := exK1; lnodes := ex_nodes; lQ := ex_Q; lQI := ex_QI; lfeval := ex_feval; lsolve := ex_solve;
      lpre := pre; lpost := post |}.
-Definition ex_xfer : @xfer Qc unit :=
+Definition ex_xfer (fin : bool) : @xfer Qc unit :=
   {| xRs := fun v => v; xPs := fun v => v; xRcoll := fun n m => if Nat.eqb m n then exK1 else exK0;
-     xPcoll := fun n m => if Nat.eqb m 1 then exK1 else exK0 |}.
+     xPcoll := fun n m => if Nat.eqb m 1 then exK1 else exK0; xfinter := fin |}.
 
 Definition ex_fine := ex_level 2 0 2.
-Definition ex_rest := [(ex_xfer, ex_level 2 1 1); (ex_xfer, ex_level 1 1 0)].
+Definition ex_rest := [(ex_xfer false, ex_level 2 1 1); (ex_xfer true, ex_level 1 1 0)].
 
 Notation LOK := (level_ok exK0 Qcmult Qcminus ex_eqb).
 
@@ -38,8 +38,8 @@ Proof.
   - intros m Hm. left. unfold ex_QI. rewrite Nat.leb_refl. intros H. discriminate H.
 Qed.
 
-Lemma ex_xfer_ok (Mf Mc pf qf pc qc_ : nat) : (Mc <= Mf)%nat -> 
-  xfer_ok exK0 exK1 Qcplus Qcminus ex_xfer (ex_level Mf pf qf) (ex_level Mc pc qc_).
+Lemma ex_xfer_ok fin (Mf Mc pf qf pc qc_ : nat) : (Mc <= Mf)%nat -> 
+  xfer_ok exK0 exK1 Qcplus Qcminus (ex_xfer fin) (ex_level Mf pf qf) (ex_level Mc pc qc_).
 Proof.
   intros Hle. unfold xfer_ok, ex_xfer; cbn [xRs xPs xRcoll lM ex_level]. split; [|split; [|split; [|split; [|split; [|split]]]]]; try (intros; reflexivity).
   - intros a b H x. apply H.
